@@ -387,11 +387,32 @@ fn report_c11(rep: &mut Report, t: &Ty, a: &Val, names: &[String], want: Cls, sa
     } else {
         eval_pair(&mt, &mv, names, want, salt)
     };
-    let sig = if key.starts_with("handle_panic|") || key.starts_with("handle_error|") {
-        format!("instance_identity|{}", key)
+    // closed classes: the only known cause is dust-dds' flattening of @key marks found inside NON-key
+    // nested structs into one map keyed by member id (ids of different structs collide)
+    fn has_marks_in_nonkey_struct(t: &Ty) -> bool {
+        fn marked(t: &Ty) -> bool {
+            match t {
+                Ty::Struct(s) => s.members.iter().any(|m| m.key || marked(&m.ty)),
+                _ => false,
+            }
+        }
+        match t {
+            Ty::Struct(s) => s
+                .members
+                .iter()
+                .any(|m| !m.key && !m.optional && matches!(&m.ty, Ty::Struct(_)) && marked(&m.ty)),
+            _ => false,
+        }
+    }
+    let kind = key.split('|').next().unwrap_or("");
+    let cause = if let Some(p) = key.strip_prefix("handle_panic|") {
+        format!("unclassified|site={}", p)
+    } else if has_marks_in_nonkey_struct(&mt) {
+        "key_marks_in_nonkey_nested_struct_flattened_by_member_id".to_string()
     } else {
-        format!("instance_identity|{}|shape={}", key, sig_class(&mt))
+        format!("unclassified|shape={}", sig_class(&mt))
     };
+    let sig = format!("instance_identity|{}|cause={}", kind, cause);
     let what = format!(
         "{}: changed {} member {} ; type {} a={} {}",
         k2,
